@@ -208,6 +208,42 @@ def classes():
     return _CLS
 
 
+_SHARED = {}      # per build: lists handed to several blocks as ONE object (params 'shared': key)
+
+
+def _shared_list(k):
+    if k.get('shared') is None:
+        return list(k['values'])
+    return _SHARED.setdefault(k['shared'], list(k['values']))
+
+
+def _if_leaf(p, par, n, a, k):
+    """combinational leaf whose ports are declared through a py4hw Interface: forward channel (source to sink) d is read,
+    the reverse channel (sink to source) r is driven in propagate(): r = d ^ k.  mode 'sink' uses addInterfaceSink,
+    mode 'source' uses addInterfaceSource (then the roles of the two channel lists are swapped)."""
+    import py4hw
+    kk = k.get('k', 1)
+
+    class IfLeaf(py4hw.Logic):
+        def __init__(self, parent, name, d, r, mode):
+            super().__init__(parent, name)
+            intf = py4hw.Interface(parent, 'if_' + name)
+            if mode == 'sink':
+                intf.sourceToSink.append(['d', d])
+                intf.sinkToSource.append(['r', r])
+                self.addInterfaceSink('p', intf)
+            else:
+                intf.sinkToSource.append(['d', d])
+                intf.sourceToSink.append(['r', r])
+                self.addInterfaceSource('p', intf)
+            self.d = d
+            self.r = r
+
+        def propagate(self):
+            self.r.put(self.d.get() ^ kk)
+    return IfLeaf(par, n, a['d'], a['r'], k.get('mode', 'sink'))
+
+
 _ABS = {}
 
 
@@ -369,7 +405,8 @@ NATIVE = {
     'Latch': (('d', 'enable'), ('q',), False, True,
               lambda p, par, n, a, k, s: p.Latch(par, n, a['d'], a['q'], a['enable'])),
     'Sequence': ((), ('r',), True, False,
-                 lambda p, par, n, a, k, s: p.Sequence(par, n, list(k['values']), a['r'], once=bool(k.get('once', False)))),
+                 lambda p, par, n, a, k, s: p.Sequence(par, n, _shared_list(k), a['r'], once=bool(k.get('once', False)))),
+    'IfLeaf': (('d',), ('r',), False, True, lambda p, par, n, a, k, s: _if_leaf(p, par, n, a, k)),
     'RandomValue': ((), ('r',), True, False,
                     lambda p, par, n, a, k, s: p.RandomValue(par, n, a['r'], k['mean'], k['stddev'])),
     'AutoReset': ((), ('reset',), True, False,
@@ -502,6 +539,7 @@ def build(plan, block_order=None, wire_order=None, subst=None, extra=None, pause
     py4hw = P()
     cls = classes()
     subst = subst or {}
+    _SHARED.clear()
     b = Built(plan)
     with muted():
         hw = py4hw.HWSystem()
@@ -664,7 +702,7 @@ def leaf_graph(root):
     for l in leaves:
         s = []
         seen = set()
-        for p in list(l.outPorts) + list(l.inOutPorts):
+        for p in list(l.outPorts):
             if p.wire is None:
                 continue
             for r in readers.get(id(p.wire), ()):
@@ -874,6 +912,36 @@ def gen_dag(rnd, n_blocks, prim_only=False, n_regs=0, n_boxes=0, allow_random=Fa
     guard = 0
     while made < n_blocks and guard < 50 * n_blocks:
         guard += 1
+        if p_abs and rnd.random() < 0.25 * p_abs + 0.03:
+            # leaves declared through an Interface (reverse channel driven combinationally), and BidirWire nets driven by a
+            # Buf and read by BidirBufs whose output enable is tied to 0
+            aw = rnd.choice(sorted(g.bywidth)) if g.bywidth else 4
+            if rnd.random() < 0.5:
+                src = g.pick(aw)
+                for _ in range(rnd.randint(2, 3)):
+                    o = g.wire(aw, pool=False)
+                    blk = native_block(g.bid('i'), 'IfLeaf', dict(d=src, r=o), dict(k=rnd.randrange(1 << aw), mode=rnd.choice(['sink', 'source'])), scope())
+                    blk['prim'] = True
+                    g.plan['blocks'].append(blk)
+                    g.bywidth.setdefault(aw, []).append(o)
+                    src = o
+                    made += 1
+            else:
+                bw = g.wire(aw, pool=False)
+                for x in g.plan['wires']:
+                    if x['id'] == bw:
+                        x['bidir'] = True
+                z = g.wire(aw, pool=False)
+                z1 = g.wire(1, pool=False)
+                g.plan['blocks'].append(cat_block(g.bid('z'), 'Constant', (aw, 0), [z], ''))
+                g.plan['blocks'].append(cat_block(g.bid('z'), 'Constant', (1, 0), [z1], ''))
+                g.plan['blocks'].append(cat_block(g.bid('d'), 'Buf', (aw, aw), [g.pick(aw), bw], ''))
+                for _ in range(rnd.randint(1, 3)):
+                    pin = g.wire(aw, pool=False)
+                    g.plan['blocks'].append(native_block(g.bid('q'), 'BidirBuf', dict(pout=z, poe=z1, pin=pin, bidir=bw), {}, ''))
+                    g.bywidth.setdefault(aw, []).append(pin)
+                    made += 1
+            continue
         if p_abs and rnd.random() < p_abs:
             # run-time class instances: the same class as behaviour-less group, as combinational leaf and as source
             cls_name = rnd.choice(['AbsBlk0', 'AbsBlk1'])
@@ -1141,7 +1209,7 @@ def inject_cycle(plan, rnd, kind):
 
 # --------------------------------------------------------------------------- sequential designs (C05)
 
-SEQ_SHAPES = ('ring', 'shift_taps', 'counter_mem', 'fsm_regs', 'random', 'two_domains', 'moore', 'pad', 'replicated')
+SEQ_SHAPES = ('shared_seq', 'ring', 'shift_taps', 'counter_mem', 'fsm_regs', 'random', 'two_domains', 'moore', 'pad', 'replicated')
 
 
 def gen_seq(rnd, n_seq, shape=None, fsm=True):
@@ -1159,7 +1227,24 @@ def gen_seq(rnd, n_seq, shape=None, fsm=True):
     def cat(entry, cfg, conn, scope=''):
         plan['blocks'].append(cat_block(g.bid('c'), entry, cfg, conn, scope))
 
-    if shape == 'ring':
+    if shape == 'shared_seq':
+        # several Sequence blocks (once=True and default) built from ONE list object of the caller, feeding registers
+        vals = [rnd.randrange(1 << w) for _ in range(rnd.randint(3, 6))]
+        outs = []
+        for k in range(rnd.randint(2, 3)):
+            r = g.wire(w)
+            plan['blocks'].append(native_block(g.bid('s'), 'Sequence', dict(r=r), dict(values=vals, once=(k < 2 or rnd.random() < 0.5), shared='L0'), ''))
+            outs.append(r)
+        acc = outs[0]
+        for o in outs[1:]:
+            nx = g.wire(w)
+            cat('Xor2', (w,), [acc, o, nx])
+            acc = nx
+        for k in range(max(1, n_seq - len(outs))):
+            q = g.wire(w)
+            reg(acc if k == 0 else outs[k % len(outs)], q)
+        rnd.shuffle(plan['blocks'])
+    elif shape == 'ring':
         # q[i] -> (optional inverter) -> d[i+1]; closed ring; distinct reset values make it non-trivial
         qs = [g.wire(w) for _ in range(n_seq)]
         en = g.input(1) if rnd.random() < 0.5 else None
@@ -1445,6 +1530,11 @@ def gen_seq(rnd, n_seq, shape=None, fsm=True):
                                                    dict(read_address=ra, write_address=wa, write=g.pick(1, 0.5, 10 ** 6), readdata=q,
                                                         writedata=g.pick(w, 0.05, 10 ** 6)), {}, ''))
         rnd.shuffle(plan['blocks'])
+    # StreamCapture blocks next to the registers, on the same wires (root domain and, if there is one, the second domain)
+    regs_ = [x for x in plan['blocks'] if x['kind'] == 'Reg']
+    for k, x in enumerate(rnd.sample(regs_, min(len(regs_), 2))):
+        wid = rnd.choice([x['args']['d'], x['args']['q']])
+        plan['blocks'].append(native_block('cap%d' % k, 'StreamCapture', dict(x=wid), {}, x['scope'] if rnd.random() < 0.6 else ''))
     return assign_wire_scopes(plan)
 
 
